@@ -16,7 +16,7 @@ ATTR = {
 def random_world(rnd, k):
     n = rnd.choice([3, 3, 4])
     pts = [(rnd.randint(0, 4), rnd.randint(0, 4)) for _ in range(n)]
-    d = [[0 if i == j else abs(pts[i][0] - pts[j][0]) + abs(pts[i][1] - pts[j][1]) + rnd.choice([0, 0, 1]) for j in range(n)] for i in range(n)]
+    d = [[0 if i == j else abs(pts[i][0] - pts[j][0]) + abs(pts[i][1] - pts[j][1]) + rnd.choice([0, 0, 1, 3]) for j in range(n)] for i in range(n)]
     # metric closure: the design claim "a removal keeps a gated tour feasible" (GatedImpliesFeasible under RuinAt) needs the
     # triangle inequality - TLC found the counterexample in a non-metric random world (remove a stop -> longer way -> late)
     for k_ in range(n):
@@ -84,7 +84,7 @@ def run(pid, tier):
     extra = [random_world(rnd, k) for k in range(nextra)]
     fx = os.path.join(d, 'extra-worlds.ndjson')
     common.write_ndjson(fx, extra)
-    nworlds = 4 + nextra
+    nworlds = 5 + nextra
     # 1. model level: guarded construction / ruin game, exactness of the summaries, in every world
     mc_states = mc_trans = 0
     mc_cov = {}
